@@ -239,6 +239,19 @@ def describe_failure(f, context=14):
         out.append(f"{mark}{i:4d} {summarize_event(r)}")
     if f.get("invariant"):
         out.append(f"   invariant violated: {f['invariant']} flags={f.get('flags')}")
+    ls = f.get("laststate")
+    if ls:
+        for e in ("A", "B"):
+            try:
+                hs = ls["hnd"][e]
+                hsum = [dict(h=i + 1, id=x["id"], st=x["st"], cr=x["credit"], cW=x["closedW"], inq=len(x["inq"]), buf=x["buf"]["len"],
+                             since=x["since"], thr=x["thr"], eof=x["eof"], conn=x["conn"]) for i, x in enumerate(hs)]
+                out.append(f"   spec[{e}] task={ls['task'][e]} mux={ls['mux'][e]} sink={ls['sink'][e]} src={ls['src'][e]} outClosed={ls['outClosed'][e]} rxblk={ls['rxblk'][e]['k']}")
+                out.append(f"   spec[{e}] outq={[(m['op'], m['id'], m['n'], m['len']) for m in ls['outq'][e]]} wire={[(m['op'], m['id'], m['n'], m['len']) for m in ls['wire'][e]]} drops={ls['drops'][e]}")
+                out.append(f"   spec[{e}] slot={ls['slot'][e]} acceptq={ls['acceptq'][e]} calls={ls['calls'][e]}")
+                out.append(f"   spec[{e}] hnd={hsum}")
+            except Exception as ex:
+                out.append(f"   (laststate summary failed: {ex})")
     return "\n".join(out)
 
 
